@@ -722,13 +722,20 @@ func c06Child(line string) (string, []Fail) {
 		return "hang", []Fail{{"uniq.hang.disk", "no result after 60 s"}}
 	}
 	if err != nil {
-		msg := errb.String()
-		if i := strings.Index(msg, "\n"); i > 0 {
-			j := strings.Index(msg[i+1:], "created by")
-			if j > 0 {
-				msg = msg[:i] + " ... " + strings.SplitN(msg[i+1+j:], "\n", 2)[0]
-			} else {
-				msg = msg[:i]
+		lines := strings.Split(errb.String(), "\n")
+		msg := lines[0]
+		nf := 0
+		for _, l := range lines[1:] {
+			l = strings.TrimSpace(l)
+			if strings.HasPrefix(l, "/repo/") && nf < 8 { // frames of the code under test
+				if i := strings.Index(l, " +0x"); i > 0 {
+					l = l[:i]
+				}
+				msg += " < " + strings.TrimPrefix(l, "/repo/")
+				nf++
+			}
+			if strings.HasPrefix(l, "goroutine ") && nf > 0 {
+				break
 			}
 		}
 		return "panic", []Fail{{"uniq.panic.disk", "the process died: " + msg}}
@@ -771,8 +778,19 @@ func c06Dispatch(line string) (string, []Fail) {
 		recs = append(recs, r)
 	}
 	stat("dispatch")
-	got := map[int]int{}
-	res := guardT(30*time.Second, func() string {
+	exp := map[int]int{}
+	for i := range recs {
+		exp[int(crc32.ChecksumIEEE(bytes.ToLower(recs[i].seq))%uint32(chunks))]++
+	}
+	want := c06ShowDisp(exp)
+	// the files are looked at right after WriterDispatcher returns; whether the writer goroutines have flushed
+	// and closed them by then is a matter of scheduling, so small cases are repeated
+	rounds := 1
+	if len(recs) <= 60 {
+		rounds = 25
+	}
+	once := func() string {
+		got := map[int]int{}
 		dir, err := os.MkdirTemp(os.TempDir(), "verif_c06_")
 		if err != nil {
 			return "err"
@@ -819,16 +837,22 @@ func c06Dispatch(line string) (string, []Fail) {
 			got[code] = cnt
 		}
 		return c06ShowDisp(got)
+	}
+	res := guardT(60*time.Second, func() string {
+		r := ""
+		for i := 0; i < rounds; i++ {
+			r = once()
+			if r != want {
+				return r
+			}
+		}
+		return r
 	})
 	if res == "panic" || res == "fatal" || res == "hang" || res == "err" {
 		return res, []Fail{{"dispatch." + res, "WriterDispatcher ended with " + res}}
 	}
-	exp := map[int]int{}
-	for i := range recs {
-		exp[int(crc32.ChecksumIEEE(bytes.ToLower(recs[i].seq))%uint32(chunks))]++
-	}
 	var fails []Fail
-	if e := c06ShowDisp(exp); e != res {
+	if e := want; e != res {
 		fails = append(fails, Fail{"dispatch.incomplete-files",
 			"records in the chunk files when WriterDispatcher returns: expected " + e + " got " + res})
 	}
@@ -1237,9 +1261,9 @@ func (c06) Gen(rng *rand.Rand, tier string, emit func(string)) {
 	// the chunk files must be complete when WriterDispatcher returns (ISequenceChunkOnDisk reads them at once)
 	emit("dispatch c=1 b=2 61:61636774:-:-:- 62:61636774:3:73=s79:- 63:6161:2:-:73~78=1~7a=1")
 	emit("dispatch c=7 b=1 61:61636774:-:-:- 62:61636774:3:73=s79:- 63:6161:2:-:73~78=1~7a=1 64:67:-:-:- 65:74:-:-:- 66:6163:-:-:-")
-	ndisp := 25
+	ndisp := 40
 	if tier == "thorough" {
-		ndisp = 60
+		ndisp = 100
 	}
 	for i := 0; i < ndisp; i++ {
 		n := 1 + rng.Intn(60)
@@ -1254,9 +1278,9 @@ func (c06) Gen(rng *rand.Rand, tier string, emit func(string)) {
 		emit(strings.Join(p, " "))
 	}
 
-	nbase := 150
+	nbase := 450
 	if tier == "thorough" {
-		nbase = 600
+		nbase = 1500
 	}
 	chunkChoices := []int{1, 2, 7, 100}
 	for i := 0; i < nbase; i++ {
